@@ -70,6 +70,16 @@ def eval_ext(toks, state):
                 child, rest = SP(SeqObj=Sequence(seq).swapRandChargeRes()), toks[3:]
             elif how == "shuffle":
                 child, rest = SP(seq).get_shuffled_sequence(), toks[3:]
+            elif how in ("frozenshuffle", "kappashuffle"):
+                # frozenshuffle SEQ <frozen csv|-> ... ; kappashuffle: the parent is asked for kappa first (its cache is warm)
+                from . import real_moves
+                fr = real_moves.frozen_of(toks[3])
+                parent = SP(seq)
+                if how == "kappashuffle":
+                    parent.get_kappa()
+                child, rest = parent.get_shuffled_sequence(real_moves.frozen_as(fr, len(seq))), toks[4:]
+                if any(child.get_sequence()[i] != seq[i] for i in fr if 0 <= i < len(seq)):
+                    return ("exc", "Inconsistent", "frozen residue moved")
             elif how == "backendshuffle":
                 child, rest = SP(SeqObj=Sequence(seq).full_shuffle()), toks[3:]
             elif how == "permutant":
@@ -77,6 +87,8 @@ def eval_ext(toks, state):
                 child, rest = SequencePermutants(seq).get_permutant(), toks[3:]
             else:
                 raise KeyError(how)
+        if sorted(child.get_sequence()) != sorted(seq):
+            return ("exc", "Inconsistent", "the object handed back holds %s, not a rearrangement of %s" % (child.get_sequence(), seq))
         return ("childq", child.get_sequence(), " ".join(rest), real.query(child, rest[0], rest[1:]))
     if op == "parse2":
         # one parser object reused for every parse2 line of the block (parsing must not depend on earlier files)
@@ -93,6 +105,11 @@ def eval_ext(toks, state):
         return ("none",)
     if op == "o":
         return real.query(objs[toks[1]], toks[2], toks[3:])
+    if op == "shufall":
+        # shufall <j> <i>: object j := object i .get_shuffled_sequence(frozen = every position) - same sequence, a NEW object
+        n = len(objs[toks[2]])
+        objs[toks[1]] = objs[toks[2]].get_shuffled_sequence(set(range(n)) if n % 2 else list(range(n)))
+        return ("none",)
     if op == "setphos":
         vals = [int(x) for x in toks[2:]]
         mode = state.get("phosmode", 0)
